@@ -631,14 +631,22 @@ def _avoid_ambiguous(model, ops):
     # target of a call, when the label slides into another function: whether
     # that call now 'targets' the other function is not specified
     call_targets = {t.target for _, u in model.units() for t in u.toks if t.kind == "insn" and t.ikind == "call" and t.target}
+    for o in ops:
+        p = o.get("patch")
+        if p and "lines" in p:
+            call_targets |= {l.get("t") for l in p["lines"] if l.get("v") == "call" and l.get("t")}
+    whole = {}
     for oi, (key, off, length) in loc.items():
         sp = model.spans[key]
         if ops[oi]["k"] in ("delblock", "del") and not ops[oi].get("proxy") and length == sp.size and sp.kind == "code":
-            own = {t.name for _, u in model.units() for t in u.toks if t.kind == "label" and t.att is sp}
-            lst2 = model.span_list[sp.sect]
-            nxt = lst2[sp.order + 1] if sp.order + 1 < len(lst2) else None
-            if own & call_targets and (nxt is None or nxt.func != sp.func):
-                ops[oi]["_drop"] = True
+            whole[oi] = sp
+    for oi, sp in whole.items():
+        chain = [s2 for s2 in whole.values() if s2.sect == sp.sect and s2.order <= sp.order]
+        own = {t.name for _, u in model.units() for t in u.toks if t.kind == "label" and any(t.att is s2 for s2 in chain)}
+        lst2 = model.span_list[sp.sect]
+        nxt = lst2[sp.order + 1] if sp.order + 1 < len(lst2) else None
+        if own & call_targets and (nxt is None or nxt.func != sp.func):
+            ops[oi]["_drop"] = True
     # a block deleted with retarget_to_proxy that calls itself: whether the
     # function still 'has a caller' afterwards is not specified
     toks = {t.id: t for _, u in model.units() for t in u.toks}
